@@ -1,6 +1,6 @@
 """C07 / C20: Verus on the last statement of main::run_dedupe: under --dry-run the script is printed and never executed;
 a real run executes it and asks for file locks unless --no-lock was given."""
-from vf.verus_run import Source, Piece, UnitBuild
+from vf.verus_run import Source, Piece, UnitBuild, LostAnchor
 
 NAME = "run_dedupe_dispatch"
 
@@ -63,6 +63,10 @@ def build():
     ub.spec(PRELUDE)
     # structural anchor: the top-level statement of run_dedupe that calls run_script
     st = src.top_stmt(fn, "run_script(")
+    # accepted only if this one statement holds the whole decision (both effects and the test of dry_run); if the code is
+    # shaped differently (e.g. an early return for the dry run, then an unconditional run_script) the unit is undecided
+    if not ("log_script(" in st.text and "dry_run" in st.text and st.text.lstrip().startswith(("if ", "let ", "match "))):
+        raise LostAnchor("the statement of run_dedupe that calls run_script does not also hold the dry_run test and log_script")
     p = ub.piece(Piece(st, format_standin=True,
                        renames=((".map_err(|e| verif_format())?", ""), ("log_script(script, out)", "map_output_error(log_script(script, out))?"))))
     ub.spec("\n    Ok(())\n}\n\n} // verus!\nfn main() {}\n")
